@@ -169,3 +169,18 @@ Example C12_promoter_witness :
   (r_promaddr s, map pm_uid (r_proms s)) = ([(0, 0); (1, 1)], [0; 1]) /\
   snd (rstep s (RCreatePromoter 0 wit_tk 2 [])) = RErr /\ snd (rstep s (RCreatePromoter 1 wit_tk 0 [])) = RErr.
 Proof. vm_compute. repeat split; reflexivity. Qed.
+
+From Coq Require Import ZArith.
+From Sge Require Model.Reward.
+From Sge Require Import Gen.kernels Proofs.GenKernels.
+Open Scope Z_scope.
+(* the pool arithmetic of the reward machine IS the Go code: Pool.AvailableAmount / CheckBalance / Spend / TopUp / Withdraw are generated
+   from x/reward/types/pool.go on every run and proved equal to the model's expressions *)
+Theorem C12_kernels_generated : forall c x,
+  K_Pool_AvailableAmount (pool_of c) = Reward.cm_avail c /\
+  K_Pool_CheckBalance (pool_of c) x = negb (Reward.cm_avail c <? x) /\
+  K_Pool_Spend (pool_of c) x = {| G_Pool_Total := Reward.cm_total c; G_Pool_Spent := Reward.cm_spent c + x; G_Pool_Withdrawn := Reward.cm_withdrawn c |} /\
+  K_Pool_TopUp (pool_of c) x = {| G_Pool_Total := Reward.cm_total c + x; G_Pool_Spent := Reward.cm_spent c; G_Pool_Withdrawn := Reward.cm_withdrawn c |} /\
+  K_Pool_Withdraw (pool_of c) x = {| G_Pool_Total := Reward.cm_total c; G_Pool_Spent := Reward.cm_spent c; G_Pool_Withdrawn := Reward.cm_withdrawn c + x |}.
+Proof. intros. split; [reflexivity|]. split; [apply gen_CheckBalance|]. repeat split. Qed.
+Print Assumptions C12_kernels_generated.
